@@ -1,4 +1,5 @@
 import Driver.Common
+import Driver.ViewTwin
 import Parsley.Model.Xref
 import Parsley.Spec.Xref
 /-!
@@ -11,6 +12,13 @@ import Parsley.Spec.Xref
         table) replaced by the chunk (M), and everything after that chunk cut off (X).
   xs <enc> <dictspec> <contenthex> <pos>      cross-reference stream, unfiltered content
   xz <mode> <dictspec> <rowshex>              the harness compresses the rows (zlib, optional PNG Up)
+
+  vw <steps> <prehex> <sufhex> <tab … | xs … | xz …>
+        the same case on a RESTRICTED VIEW (Driver/ViewTwin.lean): the bytes the parser is to see (tab: <hex>,
+        xs: <contenthex>, xz: the compressed content) are the window of the allocation pre ++ window ++ suf
+        that the chain of RestrictView / RestrictViewFrom steps selects.  <pos>, spans, cursors and entry
+        offsets are cursors of the view.  Model and oracle are those of the case on the window's bytes alone
+        (C17 `view_refines_copy`: a view behaves like a copy of its window); oracle classes are prefixed `view-`.
 
   The oracle (`judge`) is computed from `Parsley.XrefSpec` only.
 -/
@@ -109,11 +117,13 @@ def rowWidthOf (d : Dict) : Nat :=
   | some (.arr l) => (l.map fun a => match a with | .int v => v.toNat | _ => 0).foldl (· + ·) 0
   | _ => 0
 
-def model (line : String) : String :=
-  match words line with
+/-- `fault`: given the window, what the harness answers when the steps of a `vw` case do not select it -/
+def modelPlain (ws : List String) (fault : Bytes → Option String) : String :=
+  match ws with
   | "tab" :: hex :: pos :: _ =>
     match bytesOfHex hex, pos.toNat? with
     | some s, some i =>
+      if let some f := fault s then f else
       if i > s.length then "bad-case" else
       match xrefSectP s i with
       | (.ok v, c) =>
@@ -125,6 +135,7 @@ def model (line : String) : String :=
   | "xs" :: enc :: ds :: hex :: pos :: _ =>
     match parseDict ds, bytesOfHex hex, pos.toNat? with
     | some d, some s, some i =>
+      if let some f := fault s then f else
       if i > s.length then "bad-case" else
       match xrefStreamP (enc == "1") d xfFail s i with
       | (.ok es, c) => s!"ok {c} ents={showEnts (es.map (·.val))}"
@@ -146,6 +157,19 @@ def model (line : String) : String :=
       | (.panic p, _) => s!"panic {p}"
     | _, _ => "bad-case"
   | _ => "bad-case"
+
+/-- A case on a restricted view is modelled by the case on its window (C17 `view_refines_copy`), after
+    checking by the bounds rules of transforms.rs that the steps select exactly that window.  For `xz`
+    the window (the compressed rows) is known to the harness only: the sizes are written relative to
+    its length and the harness's own check (`view-error` / `view-mismatch`) stands. -/
+def model (line : String) : String :=
+  match words line with
+  | "vw" :: steps :: pre :: suf :: rest =>
+    match ViewTwin.parseSteps steps, bytesOfHex pre, bytesOfHex suf with
+    | some st, some pre, some suf =>
+      modelPlain rest fun win => if rest.head? == some "xz" then none else ViewTwin.viewFault st pre win suf
+    | _, _, _ => "bad-case"
+  | ws => modelPlain ws fun _ => none
 
 /-! ### the oracle -/
 
@@ -320,9 +344,8 @@ def judgeStream (d : Dict) (content : Bytes) (base : Nat) (impl : String) : Stri
     | "err" :: _ => "ok"
     | _ => "bad accept-malformed the dictionary or the rows are malformed"
 
-def judge (case impl : String) : String :=
-  if impl.trimAscii.toString == "bad-case" then "skip" else
-  match words case with
+def judgePlain (ws : List String) (impl : String) : String :=
+  match ws with
   | "tab" :: hex :: pos :: toks => judgeTab hex pos toks impl
   | "xs" :: enc :: ds :: hex :: pos :: _ =>
     match parseDict ds, bytesOfHex hex, pos.toNat? with
@@ -336,6 +359,33 @@ def judge (case impl : String) : String :=
     | some d, some rows => judgeStream d rows 0 impl
     | _, _ => "skip"
   | _ => "skip"
+
+/-- the window of a case: the bytes the parser is given (`none`: known to the harness only) -/
+def windowOf : List String → Option Bytes
+  | "tab" :: hex :: _ => bytesOfHex hex
+  | "xs" :: _ :: _ :: hex :: _ => bytesOfHex hex
+  | _ => none
+
+/-- A case on a restricted view is judged as the case on the window's bytes: the expectation is computed
+    from the case's own fields alone - what lies in front of the window and behind it, and where the window
+    lies in the allocation, does not enter it. -/
+def judge (case impl : String) : String :=
+  if impl.trimAscii.toString == "bad-case" then "skip" else
+  match words case with
+  | "vw" :: steps :: pre :: suf :: rest =>
+    match ViewTwin.parseSteps steps, bytesOfHex pre, bytesOfHex suf with
+    | some st, some pre, some suf =>
+      let fault := match windowOf rest with
+        | some win => ViewTwin.viewFault st pre win suf
+        | none => none
+      match fault with
+      | some f => s!"bad desc-mismatch the steps do not select the window ({f})"
+      | none =>
+        let t := impl.trimAscii.toString
+        if t == "view-error" || t == "view-mismatch" then s!"bad view {t}: the restriction does not show the window's bytes"
+        else ViewTwin.viewVerdict (judgePlain rest impl)
+    | _, _, _ => "skip"
+  | ws => judgePlain ws impl
 
 /-! ### generators -/
 
@@ -486,9 +536,107 @@ def dictCorruptions (d : List (String × String)) (x : Nat) : List (List (String
     (withv "Filter" "A()") ++ [("DecodeParms", "A(d0)")],
     (withv "Filter" "A()") ++ [("DecodeParms", "A()")] ]
 
-def gen (seed n : Nat) (tier : String) (emit : String → IO Unit) : IO Unit := do
+/-! ### every case once more on a restricted view
+
+  Each case line is followed by the same case inside a larger allocation (Driver/ViewTwin.lean).  Three axes,
+  cycled by the running case counter `c` with pairwise coprime periods (16, 7, 5: every combination occurs
+  within 560 cases):
+  * bytes in front of the window: 1, 7, 11, 1000 (and 0, 2, 3, 5, 13, 64) of them - a rotation of a text that
+    is itself a header, a complete cross-reference stream object, a complete table, trailer and startxref; or
+    random bytes;
+  * the chain of restrictions: RestrictView; RestrictViewFrom; From then View; View then View with junk on both
+    sides of the inner window; View then From; a View starting at 0 then From; three deep;
+  * bytes behind the window that CONTINUE the construct: a further subsection (with and without leading blanks),
+    further entries and then a subsection, the cut-off rest of a truncated table / of truncated rows, further
+    rows, a trailer; nothing - so that an implementation reading beyond the view's end returns more entries
+    or accepts what must be rejected. -/
+
+def junkText : Bytes :=
+  strBytes "%PDF-1.4\n1 0 obj<</Type/XRef/W[1 2 1]/Size 2>>stream\n" ++ [1, 0, 16, 0, 0, 0, 0, 255] ++
+  strBytes "\nendstream endobj\nxref\n0 2\n0000000000 65535 f \n0000000017 00000 n \ntrailer\n<</Size 2>>\nstartxref\n99\n%%EOF\n"
+
+def moreSub : Bytes := strBytes "3 2\n0000000017 00000 n \n0000000081 00007 n\r\n"
+def moreEnts : Bytes := strBytes "0000000099 00000 n \n0000000000 65535 f\r\n"
+def moreRows : Bytes := (List.range 40).map fun i => ([1, 0, 0, 9, 0, 2, 0, 1] : List UInt8)[i % 8]?.getD 1
+
+/-- the view twin of a case line; `cont` = what continues THIS case behind its window, if known;
+    `noFrom`: avoid the chain that cannot have anything behind the window -/
+def viewLine (c : Nat) (line : String) (cont : Option Bytes) (noFrom : Bool := false) : Option String :=
+  let c := if noFrom && ViewTwin.shapeNoSuffix c then c + 1 else c
+  -- (cut family: what lies behind the window is always the rest of the construct)
+  let cont := if noFrom then some (cont.getD []) else cont
+  let always := noFrom
+  match words line with
+  | "tab" :: hex :: _ =>
+    (bytesOfHex hex).map fun buf =>
+      let suf : Bytes := match c % 5 with
+        | 0 => cont.getD moreSub
+        | 1 => if always then cont.getD [] else []
+        | 2 => cont.getD (moreEnts ++ moreSub)
+        | 3 => cont.getD ([32] ++ moreSub)
+        | _ => if always then cont.getD [] else strBytes "trailer\n<< /Size 3 >>\nstartxref\n0\n%%EOF"
+      ViewTwin.wrap c junkText buf suf line
+  | "xs" :: _ :: _ :: hex :: _ =>
+    (bytesOfHex hex).map fun buf =>
+      let suf : Bytes := match c % 5 with
+        | 1 => if always then cont.getD [] else []
+        | 4 => if always then cont.getD [] else strBytes "\nendstream\nendobj\n"
+        | _ => cont.getD moreRows
+      ViewTwin.wrap c junkText buf suf line
+  | "xz" :: _ =>
+    -- (the window is the zlib stream the harness produces; behind it: an empty zlib stream, stream text)
+    let suf : Bytes := match c % 5 with
+      | 1 => []
+      | 2 => [0x78, 0x9c, 0x03, 0x00, 0x00, 0x00, 0x00, 0x01]
+      | _ => strBytes "\nendstream\nendobj\n"
+    some (ViewTwin.wrapRel c junkText suf line)
+  | _ => none
+
+/-- CUT family: valid constructs with the view ending at every byte inside them, the rest lying behind the
+    view.  Tables: where the cut leaves complete subsections (and nothing else) the case is a described legal
+    table (exactly those subsections are expected); elsewhere a raw case (correspondence with the model; an
+    accepted table is re-read from the window's bytes).  Streams: the rows cut at every byte (the oracle
+    expects a rejection unless every row is complete). -/
+def cutFamily (emit : String → IO Unit) (full : Bool) : IO Unit := do
+  let e0 : XrefSpec.TEnt := { info := 0, gen := 65535, inuse := false, eol := .spLf }
+  let e1 : XrefSpec.TEnt := { info := 17, gen := 0, inuse := true, eol := .crLf }
+  let e2 : XrefSpec.TEnt := { info := 9999999999, gen := 7, inuse := true, eol := .spCr }
+  let mut k := 0
+  for (he, lead) in [(([10] : Bytes), ([] : Bytes)), ([13, 10], [32]), ([32, 13], [])] do
+    let subs : List XrefSpec.TSub :=
+      [{ start := 0, wStart := 1, wCount := 1, lead := [], hdrEol := he, ents := [e0, e1] },
+       { start := 5, wStart := 1, wCount := 2, lead := lead, hdrEol := [10], ents := [e2] },
+       { start := 70, wStart := 3, wCount := 1, lead := lead, hdrEol := he, ents := [e1, e0] }]
+    let tb := XrefSpec.encTable subs
+    let tail := strBytes "trailer\n"
+    let ends := (List.range 4).map fun j => (XrefSpec.encTable (subs.take j)).length
+    for cut in List.range (tb.length + 1) do
+      k := k + 1
+      if full || k % 3 == 0 || ends.contains cut then
+        let j := ends.idxOf cut
+        let line := if 1 ≤ j && j < 4 then legalLine (subs.take j) [] else s!"tab {hexOfBytes (tb.take cut)} 0"
+        if let some l := viewLine k line (some (tb.drop cut ++ tail)) true then emit l
+  for (w0, w1, w2) in [(1, 2, 1), (0, 1, 0), (2, 4, 3)] do
+    let es : List XrefSpec.SEnt := [⟨1, 17, 0⟩, ⟨if w0 == 0 then 1 else 2, 5, 3⟩, ⟨if w0 == 0 then 1 else 0, 0, 255⟩, ⟨1, 255, 1⟩]
+    let rows := XrefSpec.encRows w0 w1 w2 es
+    let d := dictStr [("Type", "nXRef"), ("Size", "i4"), ("W", s!"A(i{w0},i{w1},i{w2})")]
+    for cut in List.range (rows.length + 1) do
+      k := k + 1
+      if let some l := viewLine k s!"xs 0 {d} {hexOfBytes (rows.take cut)} 0" (some (rows.drop cut)) true then emit l
+
+def gen (seed n : Nat) (tier : String) (emit0 : String → IO Unit) : IO Unit := do
+  -- every case is emitted twice: as it is, and on a restricted view
+  let ctr ← IO.mkRef 0
+  let emitC (cont : Option Bytes) (line : String) : IO Unit := do
+    emit0 line
+    let c ← ctr.modifyGet fun c => (c, c + 1)
+    match viewLine c line cont with
+    | some l => emit0 l
+    | none => pure ()
+  let emit := emitC none
   let mut r := Rng.mk' seed
   let thorough := tier == "thorough"
+  cutFamily emit0 thorough
   -- (4) exhaustive small: every 2-byte terminator over {SP, CR, LF, NUL, 'x'} in the first and in a
   -- later subsection, both entry types
   let e0 : XrefSpec.TEnt := { info := 0, gen := 65535, inuse := false, eol := .spLf }
@@ -524,7 +672,10 @@ def gen (seed n : Nat) (tier : String) (emit : String → IO Unit) : IO Unit := 
         r := r6
         let chosen := if thorough then cs else [cs[pick]?.getD ([], false), cs[(pick + 5) % cs.length]?.getD ([], false)]
         for (chunk, cut) in chosen do
-          if let some l := mutLine subs rest k chunk cut then emit l
+          if let some l := mutLine subs rest k chunk cut then
+            -- (on a view: behind a table truncated inside an entry lies the rest of the entry and of the table)
+            let cont := if cut then (encMutated subs k chunk).map fun (_, post) => (XrefSpec.encEntry e).drop chunk.length ++ post ++ rest else none
+            emitC cont l
     -- raw: one random byte of the table altered anywhere / truncation anywhere / start inside
     let bytes := XrefSpec.encTable subs ++ rest
     let (p, r7) := r.nat bytes.length
@@ -532,7 +683,7 @@ def gen (seed n : Nat) (tier : String) (emit : String → IO Unit) : IO Unit := 
     let (cutp, r9) := r8.nat (bytes.length + 1)
     r := r9
     emit s!"tab {hexOfBytes (bytes.set p x)} 0"
-    emit s!"tab {hexOfBytes (bytes.take cutp)} 0"
+    emitC (some (bytes.drop cutp)) s!"tab {hexOfBytes (bytes.take cutp)} 0"
     emit s!"tab {hexOfBytes ([37, 120, 10, 32] ++ bytes)} {p % 5}"
   -- header-level oddities (correspondence only)
   for h in ["xref\n0 1\n", "xref\n", "xref", "xre", "", "xref\n-0 1\n", "xref\n+0 1\n", "xref\n0  1\n", "xref\n0 -1\n",
@@ -560,7 +711,7 @@ def gen (seed n : Nat) (tier : String) (emit : String → IO Unit) : IO Unit := 
           let (cutp, r5) := r.nat (rows.length + 1)
           r := r5
           if !useIndex then
-            emit s!"xs 0 {dictStr d} {hexOfBytes (rows.take cutp)} 0"
+            emitC (some (rows.drop cutp)) s!"xs 0 {dictStr d} {hexOfBytes (rows.take cutp)} 0"
           if w0 != 0 && nrows > 0 then
             let (rowi, r6) := r.nat nrows
             let (bad, r7) := r6.nat 253
@@ -601,13 +752,22 @@ def gen (seed n : Nat) (tier : String) (emit : String → IO Unit) : IO Unit := 
 
 /-- non-trivial: a described table with at least two subsections or a corruption; a stream case
     with at least two rows' worth of content or a dictionary lacking/with altered standard keys -/
-def nontrivial (line : String) : Bool :=
-  match words line with
+def nontrivialPlain (ws : List String) : Bool :=
+  match ws with
   | "tab" :: _ :: _ :: "L" :: toks =>
     (toks.filter (·.startsWith "S")).length ≥ 2 || toks.any (·.startsWith "M")
   | "xs" :: _ :: ds :: hex :: _ => hex.length ≥ 8 || !(ds.startsWith "D(Type=nXRef,Size=i")
   | "xz" :: _ :: _ :: hex :: _ => hex.length ≥ 8
   | _ => false
+
+/-- a case on a view is non-trivial when the case is (a raw table: at least 20 bytes), and the window is a
+    proper part of the allocation -/
+def nontrivial (line : String) : Bool :=
+  match words line with
+  | "vw" :: _ :: pre :: suf :: rest =>
+    (pre != "-" || suf != "-") &&
+    (nontrivialPlain rest || match rest with | ["tab", hex, _] => hex.length ≥ 40 | _ => false)
+  | ws => nontrivialPlain ws
 
 def driver : PropDriver := { gen, model, judge, nontrivial }
 end Driver.C13
